@@ -1,5 +1,1085 @@
-//! Conformance harness for specification-growth module g08 (see /verif/DESIGN.md 12.6).
+//! Conformance harness for specification-growth module G08: resource limits,
+//! the file mode creation mask and the process times - the built-ins `ulimit`,
+//! `umask`, `times` and the system calls below them (spec/Limits.tla).
+//!
+//! `platform` prints the platform record and the initial state of a system
+//!            (simulated / real) as JSON: what TLC needs to enumerate and judge.
+//! `replay`   spec -> impl: reads the lines TLC printed from spec/Gen_Limits.tla
+//!            (one per reachable state: witness, read-back commands, and the
+//!            fan = short command sequences with the allowed alternatives).
+//!            For every (state, entry) one subshell of the real shell runs the
+//!            witness, the entry and the read-back; exit status, standard
+//!            output and "anything on standard error" of every command are
+//!            compared with the alternatives.  Anything but an exact match is
+//!            written out for the judge (spec/Trace_Limits.tla).  The family
+//!            "calls" is run on the system objects directly (VirtualSystem in
+//!            process, RealSystem in forked children of a re-executed child).
+//! `random`   impl -> spec: seeded random command sequences (shell layer and
+//!            call layer), recorded for validation by spec/Trace_Limits.tla.
+//! `redo`     re-executes recorded sequences (replay files, anti-vacuity tests).
+//!
+//! The real side always runs in re-executed children: they raise every soft
+//! limit to its hard limit, set the mask to 022, give up CAP_SYS_RESOURCE if
+//! they have it (so that the real process is unprivileged like the simulated
+//! one) and only then start the shell / perform the calls.
+use rand::rngs::StdRng;
+use rand::{Rng, SeedableRng};
+use serde_json::{Value, json};
+use std::io::{BufRead, Read, Write};
+use std::pin::Pin;
+use std::rc::Rc;
+use std::sync::Mutex;
+use std::sync::atomic::{AtomicBool, AtomicUsize, Ordering};
+use yash_cli::startup::args::Parse;
+use yash_env::Env;
+use yash_env::RealSystem;
+use yash_env::VirtualSystem;
+use yash_env::builtin::{Builtin, Result as BResult, Type};
+use yash_env::io::Fd;
+use yash_env::semantics::{ExitStatus, Field, exit_or_raise};
+use yash_env::system::resource::{GetRlimit, INFINITY, Limit, LimitPair, Resource, SetRlimit};
+use yash_env::system::{Concurrent, CpuTimes, Disposition, Errno, Mode, Sigaction as _, Signals as _, Umask};
+use yvcommon::real::{RealCfg, run_real};
+use yvcommon::sched::Outcome;
+use yvcommon::shell::{ShellCfg, ShellSystem, Sys, register_generic_probes, run_shell, shell_body};
+use yvcommon::util::{catch, open_in, open_out, opt, opt_usize};
+
+// ---------------------------------------------------------------------------
+// resources: option letter (the model's name) -> Resource / libc constant.
+// Written from the manual's option list, independently of yash-builtin's table.
+// ---------------------------------------------------------------------------
+const LETTERS: [&str; 19] = ["b", "c", "d", "e", "f", "i", "k", "l", "m", "n", "q", "R", "r", "s", "t", "u", "v", "w", "x"];
+
+fn resource_of(letter: &str) -> Option<Resource> {
+    Some(match letter {
+        "b" => Resource::SBSIZE,
+        "c" => Resource::CORE,
+        "d" => Resource::DATA,
+        "e" => Resource::NICE,
+        "f" => Resource::FSIZE,
+        "i" => Resource::SIGPENDING,
+        "k" => Resource::KQUEUES,
+        "l" => Resource::MEMLOCK,
+        "m" => Resource::RSS,
+        "n" => Resource::NOFILE,
+        "q" => Resource::MSGQUEUE,
+        "R" => Resource::RTTIME,
+        "r" => Resource::RTPRIO,
+        "s" => Resource::STACK,
+        "t" => Resource::CPU,
+        "u" => Resource::NPROC,
+        "v" => Resource::AS,
+        "w" => Resource::SWAP,
+        "x" => Resource::LOCKS,
+        _ => return None,
+    })
+}
+
+/// The kernel's own number of the resource (Linux), or None if it has none.
+fn libc_resource(letter: &str) -> Option<libc::__rlimit_resource_t> {
+    Some(match letter {
+        "c" => libc::RLIMIT_CORE,
+        "d" => libc::RLIMIT_DATA,
+        "e" => libc::RLIMIT_NICE,
+        "f" => libc::RLIMIT_FSIZE,
+        "i" => libc::RLIMIT_SIGPENDING,
+        "l" => libc::RLIMIT_MEMLOCK,
+        "m" => libc::RLIMIT_RSS,
+        "n" => libc::RLIMIT_NOFILE,
+        "q" => libc::RLIMIT_MSGQUEUE,
+        "R" => libc::RLIMIT_RTTIME,
+        "r" => libc::RLIMIT_RTPRIO,
+        "s" => libc::RLIMIT_STACK,
+        "t" => libc::RLIMIT_CPU,
+        "u" => libc::RLIMIT_NPROC,
+        "v" => libc::RLIMIT_AS,
+        "x" => libc::RLIMIT_LOCKS,
+        _ => return None, // b (sbsize), k (kqueues), w (swap): BSD only
+    })
+}
+
+fn lim_text(v: u64) -> String {
+    if v == INFINITY as u64 { "inf".to_string() } else { v.to_string() }
+}
+
+fn parse_lim(s: &str) -> Option<Limit> {
+    if s == "inf" { Some(INFINITY) } else { s.parse::<u64>().ok().map(|v| v as Limit) }
+}
+
+fn libc_getrlimit(letter: &str) -> Option<(u64, u64)> {
+    let r = libc_resource(letter)?;
+    let mut l = libc::rlimit { rlim_cur: 0, rlim_max: 0 };
+    if unsafe { libc::getrlimit(r, &mut l) } != 0 {
+        return None;
+    }
+    Some((l.rlim_cur as u64, l.rlim_max as u64))
+}
+
+fn errno_name(e: Errno) -> String {
+    if e == Errno::EINVAL {
+        "EINVAL".into()
+    } else if e == Errno::EPERM {
+        "EPERM".into()
+    } else {
+        format!("errno {}", e.0)
+    }
+}
+
+// ---------------------------------------------------------------------------
+// privileges of the real process
+// ---------------------------------------------------------------------------
+const CAP_SYS_RESOURCE: u32 = 24;
+
+fn has_cap_sys_resource() -> bool {
+    let Ok(s) = std::fs::read_to_string("/proc/self/status") else { return false };
+    for l in s.lines() {
+        if let Some(v) = l.strip_prefix("CapEff:") {
+            if let Ok(bits) = u64::from_str_radix(v.trim(), 16) {
+                return bits & (1 << CAP_SYS_RESOURCE) != 0;
+            }
+        }
+    }
+    false
+}
+
+/// Gives up CAP_SYS_RESOURCE (effective and permitted); true if the process
+/// is without it afterwards.
+fn drop_cap_sys_resource() -> bool {
+    if !has_cap_sys_resource() {
+        return true;
+    }
+    #[repr(C)]
+    struct Hdr {
+        version: u32,
+        pid: i32,
+    }
+    #[repr(C)]
+    #[derive(Clone, Copy)]
+    struct Data {
+        effective: u32,
+        permitted: u32,
+        inheritable: u32,
+    }
+    let mut hdr = Hdr { version: 0x2008_0522, pid: 0 };
+    let mut data = [Data { effective: 0, permitted: 0, inheritable: 0 }; 2];
+    unsafe {
+        if libc::syscall(libc::SYS_capget, &mut hdr as *mut Hdr, data.as_mut_ptr()) != 0 {
+            return false;
+        }
+        data[0].effective &= !(1 << CAP_SYS_RESOURCE);
+        data[0].permitted &= !(1 << CAP_SYS_RESOURCE);
+        if libc::syscall(libc::SYS_capset, &mut hdr as *mut Hdr, data.as_ptr()) != 0 {
+            return false;
+        }
+    }
+    !has_cap_sys_resource()
+}
+
+/// What every real child does first: soft limits up to the hard limits, mask
+/// 022, no privilege to raise hard limits.
+fn real_presetup() {
+    for l in LETTERS {
+        if let (Some(r), Some((_, hard))) = (libc_resource(l), libc_getrlimit(l)) {
+            let lim = libc::rlimit { rlim_cur: hard as libc::rlim_t, rlim_max: hard as libc::rlim_t };
+            unsafe { libc::setrlimit(r, &lim) };
+        }
+    }
+    unsafe { libc::umask(0o022) };
+    if !drop_cap_sys_resource() {
+        eprintln!("yv-g08: cannot give up CAP_SYS_RESOURCE");
+        std::process::exit(97);
+    }
+}
+
+// ---------------------------------------------------------------------------
+// the platform record
+// ---------------------------------------------------------------------------
+fn platform(sys: &str, seed: u64) -> Value {
+    assert!(INFINITY as u64 == u64::MAX, "RLIM_INFINITY is not the largest value of rlim_t");
+    let mut ceil = serde_json::Map::new();
+    let mut init = serde_json::Map::new();
+    let mut sup = vec![];
+    for l in LETTERS {
+        ceil.insert(l.to_string(), json!("inf"));
+        init.insert(l.to_string(), json!(["inf", "inf"]));
+    }
+    let mut times = json!([]);
+    if sys == "sim" {
+        sup = LETTERS.iter().map(|s| s.to_string()).collect();
+        let mut rng = StdRng::seed_from_u64(seed ^ 0x6708);
+        let mut t = vec![];
+        for i in 0..4 {
+            let m: u64 = match i {
+                0 => rng.gen_range(0..3),
+                1 => rng.gen_range(3..2000),
+                2 => 0,
+                _ => rng.gen_range(60..100_000),
+            };
+            let s: u64 = if i == 3 { 59 } else { rng.gen_range(0..60) };
+            let us: u64 = match i {
+                2 => 0,
+                3 => 999_999,
+                0 => rng.gen_range(0..1000),
+                _ => rng.gen_range(0..1_000_000),
+            };
+            t.push(json!([m, s, us]));
+        }
+        times = json!(t);
+    } else {
+        for l in LETTERS {
+            if let Some((_, hard)) = libc_getrlimit(l) {
+                sup.push(l.to_string());
+                init.insert(l.to_string(), json!([lim_text(hard), lim_text(hard)]));
+            }
+        }
+        if let Ok(s) = std::fs::read_to_string("/proc/sys/fs/nr_open") {
+            ceil.insert("n".into(), json!(s.trim()));
+        }
+    }
+    json!({"sys": sys, "sup": sup, "priv": false, "inf": (INFINITY as u64).to_string(), "ceil": ceil, "init": init,
+           "umask": 0o022, "times": times, "had_cap_sys_resource": sys == "real" && has_cap_sys_resource()})
+}
+
+fn times_of(plat: &Value) -> Option<CpuTimes> {
+    let t = plat["times"].as_array()?;
+    if t.len() != 4 {
+        return None;
+    }
+    let f = |v: &Value| -> f64 {
+        let m = v[0].as_u64().unwrap_or(0) as f64;
+        let s = v[1].as_u64().unwrap_or(0) as f64;
+        let us = v[2].as_u64().unwrap_or(0) as f64;
+        m * 60.0 + s + us / 1_000_000.0
+    };
+    Some(CpuTimes { self_user: f(&t[0]), self_system: f(&t[1]), children_user: f(&t[2]), children_system: f(&t[3]) })
+}
+
+// ---------------------------------------------------------------------------
+// built-ins of the harness: marks and kernel-level observation
+// ---------------------------------------------------------------------------
+static REAL_CHILD: AtomicBool = AtomicBool::new(false);
+
+/// `mark`: writes `@@<$?>@@` (with an operand: `%%`) as a line to standard
+/// output and `@@` (`%%`) to standard error, so that the output of every
+/// command can be cut out.
+fn mark_main<S: ShellSystem>(env: &mut Env<S>, args: Vec<Field>) -> Pin<Box<dyn Future<Output = BResult> + '_>> {
+    Box::pin(async move {
+        let (o, e) = if args.is_empty() {
+            (format!("@@{}@@\n", env.exit_status.0), "@@\n".to_string())
+        } else {
+            ("%%\n".to_string(), "%%\n".to_string())
+        };
+        let _ = env.system.write_all(Fd::STDOUT, o.as_bytes()).await;
+        let _ = env.system.write_all(Fd::STDERR, e.as_bytes()).await;
+        BResult::new(ExitStatus(0))
+    })
+}
+
+/// `getrlimit r`: the raw limits of the process as the system has them (real:
+/// getrlimit(2) through libc; simulated: the system object), `soft hard`.
+fn getrlimit_main<S: ShellSystem>(env: &mut Env<S>, args: Vec<Field>) -> Pin<Box<dyn Future<Output = BResult> + '_>> {
+    Box::pin(async move {
+        let l = args.first().map(|f| f.value.clone()).unwrap_or_default();
+        let text = if REAL_CHILD.load(Ordering::SeqCst) {
+            match libc_getrlimit(&l) {
+                Some((s, h)) => format!("{} {}", lim_text(s), lim_text(h)),
+                None => "EINVAL".to_string(),
+            }
+        } else {
+            match resource_of(&l).map(|r| env.system.getrlimit(r)) {
+                Some(Ok(p)) => format!("{} {}", lim_text(p.soft as u64), lim_text(p.hard as u64)),
+                Some(Err(e)) => errno_name(e),
+                None => "EINVAL".to_string(),
+            }
+        };
+        let _ = env.system.write_all(Fd::STDOUT, text.as_bytes()).await;
+        BResult::new(ExitStatus(0))
+    })
+}
+
+/// `sys_umask ooo`: umask(2) with the given value; prints the previous mask.
+fn sys_umask_main<S: ShellSystem>(env: &mut Env<S>, args: Vec<Field>) -> Pin<Box<dyn Future<Output = BResult> + '_>> {
+    Box::pin(async move {
+        let new = args.first().and_then(|f| u32::from_str_radix(&f.value, 8).ok()).unwrap_or(0);
+        let old = if REAL_CHILD.load(Ordering::SeqCst) {
+            unsafe { libc::umask(new as libc::mode_t) as u32 }
+        } else {
+            env.system.umask(Mode::from_bits_retain(new as _)).bits() as u32
+        };
+        let _ = env.system.write_all(Fd::STDOUT, format!("{:03o}", old).as_bytes()).await;
+        BResult::new(ExitStatus(0))
+    })
+}
+
+fn register<S: ShellSystem>(env: &mut Env<S>) {
+    env.builtins.insert("mark", Builtin::new(Type::Mandatory, mark_main::<S>));
+    env.builtins.insert("getrlimit", Builtin::new(Type::Mandatory, getrlimit_main::<S>));
+    env.builtins.insert("sys_umask", Builtin::new(Type::Mandatory, sys_umask_main::<S>));
+}
+
+/// The shell child on the real OS: `yvcommon::real`'s mirror runner after the
+/// pre-setup, plus the harness built-ins.
+fn real_shell_child() -> ! {
+    real_presetup();
+    REAL_CHILD.store(true, Ordering::SeqCst);
+    // SAFETY: single-threaded at this point
+    unsafe {
+        std::env::remove_var("YV_EVENTS");
+        std::env::remove_var("YV_CHILD");
+        std::env::remove_var("YV_G08_CHILD");
+    }
+    // SAFETY: the only RealSystem in this process
+    let system = unsafe { RealSystem::new() };
+    system.sigaction(RealSystem::SIGPIPE, Disposition::Default).ok();
+    let system = Rc::new(Concurrent::new(system));
+    let runner = Rc::clone(&system);
+    let task = async {
+        let mut env = Env::with_system(system);
+        match yash_cli::startup::args::parse(std::env::args()) {
+            Ok(Parse::Run(run)) => {
+                env.variables.extend_env(std::env::vars());
+                shell_body(&mut env, run, |env| {
+                    register_generic_probes(env);
+                    register(env);
+                })
+                .await;
+            }
+            _ => env.exit_status = ExitStatus(2),
+        }
+        exit_or_raise(&env.system, env.exit_status).await
+    };
+    runner.run_real(task)
+}
+
+// ---------------------------------------------------------------------------
+// running a script; cutting the output
+// ---------------------------------------------------------------------------
+#[derive(Clone, Debug)]
+struct Obs {
+    st: i64,
+    out: String,
+    err: bool,
+}
+
+fn quote(a: &str) -> String {
+    format!("'{}'", a.replace('\'', "'\\''"))
+}
+
+fn is_call(cmd: &[String]) -> bool {
+    matches!(cmd[0].as_str(), "getrlimit" | "setrlimit" | "sys_umask")
+}
+
+/// One command followed by its mark.  `times` is a special built-in: with
+/// operands (an error) it runs in a subshell of its own, because what an error
+/// of a special built-in does to the shell is not this module's subject.
+fn render_cmd(cmd: &[String]) -> String {
+    let words: Vec<String> = std::iter::once(cmd[0].clone()).chain(cmd[1..].iter().map(|a| quote(a))).collect();
+    let text = words.join(" ");
+    if cmd[0] == "times" && cmd.len() > 1 { format!("({text}); mark\n") } else { format!("{text}; mark\n") }
+}
+
+fn render_seq(cmds: &[Vec<String>]) -> String {
+    cmds.iter().map(|c| render_cmd(c)).collect()
+}
+
+/// Cuts the two streams of one case into per-command observations.
+fn cut_case(out: &str, err: &str, n: usize) -> Option<Vec<Obs>> {
+    let mut res = vec![];
+    let mut rest = out;
+    let errs: Vec<&str> = err.split("@@\n").collect();
+    for i in 0..n {
+        let p = rest.find("@@")?;
+        let text = &rest[..p];
+        let tail = &rest[p + 2..];
+        let q = tail.find("@@\n")?;
+        let st: i64 = tail[..q].parse().ok()?;
+        rest = &tail[q + 3..];
+        let e = errs.get(i)?;
+        res.push(Obs { st, out: text.to_string(), err: !e.is_empty() });
+    }
+    if !rest.is_empty() || errs.len() != n + 1 || !errs[n].is_empty() {
+        return None;
+    }
+    Some(res)
+}
+
+struct Ran {
+    out: String,
+    err: String,
+    outcome: String,
+}
+
+fn run_script(sys: &str, plat: &Value, script: &str) -> Ran {
+    if sys == "sim" {
+        let mut cfg = ShellCfg::stdin_script(script.as_bytes());
+        cfg.step_limit = 400_000_000;
+        let times = times_of(plat);
+        let mask = plat["umask"].as_u64().unwrap_or(0o022) as u32;
+        cfg.setup = Some(Box::new(move |env, state| {
+            register::<Sys>(env);
+            env.system.umask(Mode::from_bits_retain(mask as _));
+            if let Some(t) = times {
+                state.borrow_mut().times = t;
+            }
+        }));
+        match catch(move || run_shell(cfg)) {
+            Ok(r) => {
+                let outcome = match &r.outcome {
+                    Outcome::Completed => "completed".to_string(),
+                    _ => r.outcome_str(),
+                };
+                Ran { out: r.stdout_str(), err: r.stderr_str(), outcome }
+            }
+            Err(msg) => Ran { out: String::new(), err: String::new(), outcome: format!("panic: {msg}") },
+        }
+    } else {
+        let mut cfg = RealCfg::command("", true);
+        cfg.args = vec![];
+        cfg.stdin = script.as_bytes().to_vec();
+        cfg.timeout = std::time::Duration::from_secs(600);
+        cfg.env.push(("YV_CHILD".into(), "none".into()));
+        cfg.env.push(("YV_G08_CHILD".into(), "shell".into()));
+        let r = run_real(&cfg);
+        let outcome = if r.timed_out { "timeout".to_string() } else { "completed".to_string() };
+        Ran { out: String::from_utf8_lossy(&r.stdout).into_owned(), err: String::from_utf8_lossy(&r.stderr).into_owned(), outcome }
+    }
+}
+
+fn strs(v: &Value) -> Vec<String> {
+    v.as_array().map(|a| a.iter().map(|s| s.as_str().unwrap_or("").to_string()).collect()).unwrap_or_default()
+}
+
+fn cmds_of(v: &Value) -> Vec<Vec<String>> {
+    v.as_array().map(|a| a.iter().map(strs).collect()).unwrap_or_default()
+}
+
+/// Runs straight command sequences, each in a subshell of one shell process.
+fn run_sequences(sys: &str, plat: &Value, seqs: &[Vec<Vec<String>>]) -> (Vec<Option<Vec<Obs>>>, String) {
+    let mut script = String::new();
+    for s in seqs {
+        script.push_str("(\n");
+        script.push_str(&render_seq(s));
+        script.push_str(")\nmark %\n");
+    }
+    let ran = run_script(sys, plat, &script);
+    let outs: Vec<&str> = ran.out.split("%%\n").collect();
+    let errs: Vec<&str> = ran.err.split("%%\n").collect();
+    let mut res = vec![];
+    for (i, s) in seqs.iter().enumerate() {
+        let o = outs.get(i).copied().unwrap_or("");
+        let e = errs.get(i).copied().unwrap_or("");
+        // the call built-ins print no newline: nothing to strip
+        res.push(cut_case(o, e, s.len()));
+    }
+    (res, ran.outcome)
+}
+
+// ---------------------------------------------------------------------------
+// the call layer
+// ---------------------------------------------------------------------------
+trait CallSys {
+    fn get(&self, l: &str) -> String;
+    fn set(&self, l: &str, soft: &str, hard: &str) -> String;
+    fn umask(&self, m: u32) -> String;
+    /// the read-back `getrlimit`: through an independent route where there is one
+    fn get_independent(&self, l: &str) -> String;
+}
+
+fn do_get<S: GetRlimit>(s: &S, l: &str) -> String {
+    match resource_of(l) {
+        None => "EINVAL".into(),
+        Some(r) => match catch(std::panic::AssertUnwindSafe(|| s.getrlimit(r))) {
+            Ok(Ok(p)) => format!("{} {}", lim_text(p.soft as u64), lim_text(p.hard as u64)),
+            Ok(Err(e)) => errno_name(e),
+            Err(m) => format!("panic: {m}"),
+        },
+    }
+}
+
+fn do_set<S: SetRlimit>(s: &S, l: &str, soft: &str, hard: &str) -> String {
+    let (Some(r), Some(so), Some(ha)) = (resource_of(l), parse_lim(soft), parse_lim(hard)) else { return "EINVAL".into() };
+    match catch(std::panic::AssertUnwindSafe(|| s.setrlimit(r, LimitPair { soft: so, hard: ha }))) {
+        Ok(Ok(())) => "ok".into(),
+        Ok(Err(e)) => errno_name(e),
+        Err(m) => format!("panic: {m}"),
+    }
+}
+
+struct SimCalls(VirtualSystem);
+impl CallSys for SimCalls {
+    fn get(&self, l: &str) -> String {
+        do_get(&self.0, l)
+    }
+    fn set(&self, l: &str, soft: &str, hard: &str) -> String {
+        do_set(&self.0, l, soft, hard)
+    }
+    fn umask(&self, m: u32) -> String {
+        format!("{:03o}", self.0.umask(Mode::from_bits_retain(m as _)).bits())
+    }
+    fn get_independent(&self, l: &str) -> String {
+        self.get(l)
+    }
+}
+
+struct RealCalls(RealSystem);
+impl CallSys for RealCalls {
+    fn get(&self, l: &str) -> String {
+        do_get(&self.0, l)
+    }
+    fn set(&self, l: &str, soft: &str, hard: &str) -> String {
+        do_set(&self.0, l, soft, hard)
+    }
+    fn umask(&self, m: u32) -> String {
+        format!("{:03o}", self.0.umask(Mode::from_bits_retain(m as _)).bits())
+    }
+    fn get_independent(&self, l: &str) -> String {
+        match libc_getrlimit(l) {
+            Some((s, h)) => format!("{} {}", lim_text(s), lim_text(h)),
+            None => "EINVAL".into(),
+        }
+    }
+}
+
+/// Performs a call sequence; the last `nrb` calls are the read-back.
+fn do_calls(sys: &dyn CallSys, calls: &[Vec<String>], nrb: usize) -> Vec<String> {
+    let mut res = vec![];
+    for (i, c) in calls.iter().enumerate() {
+        let rb = i + nrb >= calls.len();
+        let a = |k: usize| c.get(k).map(|s| s.as_str()).unwrap_or("");
+        res.push(match c[0].as_str() {
+            "getrlimit" if rb => sys.get_independent(a(1)),
+            "getrlimit" => sys.get(a(1)),
+            "setrlimit" => sys.set(a(1), a(2), a(3)),
+            "sys_umask" => sys.umask(u32::from_str_radix(a(1), 8).unwrap_or(0)),
+            other => format!("unknown call {other}"),
+        });
+    }
+    res
+}
+
+fn sim_calls(plat: &Value, calls: &[Vec<String>], nrb: usize) -> Vec<String> {
+    let sys = SimCalls(VirtualSystem::new());
+    sys.0.umask(Mode::from_bits_retain(plat["umask"].as_u64().unwrap_or(0o022) as _));
+    do_calls(&sys, calls, nrb)
+}
+
+/// The re-executed child for real calls: one line {calls, nrb} per sequence on
+/// standard input, one line [texts] per sequence on standard output; every
+/// sequence runs in a forked process of its own (limits cannot be raised
+/// again, the mask is per process).
+fn real_calls_child() -> ! {
+    real_presetup();
+    let stdin = std::io::stdin();
+    let mut out = std::io::stdout();
+    for line in stdin.lock().lines() {
+        let Ok(line) = line else { break };
+        let v: Value = serde_json::from_str(&line).unwrap_or(Value::Null);
+        let calls = cmds_of(&v["calls"]);
+        let nrb = v["nrb"].as_u64().unwrap_or(0) as usize;
+        let mut fds = [0i32; 2];
+        if unsafe { libc::pipe(fds.as_mut_ptr()) } != 0 {
+            std::process::exit(98);
+        }
+        let pid = unsafe { libc::fork() };
+        if pid == 0 {
+            unsafe { libc::close(fds[0]) };
+            // SAFETY: the only RealSystem in this (forked) process
+            let sys = RealCalls(unsafe { RealSystem::new() });
+            let res = do_calls(&sys, &calls, nrb);
+            let text = serde_json::to_string(&res).unwrap_or_default();
+            unsafe {
+                libc::write(fds[1], text.as_ptr() as *const libc::c_void, text.len());
+                libc::_exit(0);
+            }
+        }
+        unsafe { libc::close(fds[1]) };
+        let mut buf = vec![];
+        let mut chunk = [0u8; 4096];
+        loop {
+            let n = unsafe { libc::read(fds[0], chunk.as_mut_ptr() as *mut libc::c_void, chunk.len()) };
+            if n <= 0 {
+                break;
+            }
+            buf.extend_from_slice(&chunk[..n as usize]);
+        }
+        unsafe { libc::close(fds[0]) };
+        let mut status = 0;
+        unsafe { libc::waitpid(pid, &mut status, 0) };
+        let text = String::from_utf8_lossy(&buf).into_owned();
+        let _ = writeln!(out, "{}", if text.is_empty() { format!("[\"died {status}\"]") } else { text });
+    }
+    let _ = out.flush();
+    std::process::exit(0)
+}
+
+/// Runs call sequences on the real system (in the re-executed child).
+fn real_calls(seqs: &[(Vec<Vec<String>>, usize)]) -> Vec<Vec<String>> {
+    let exe = std::env::current_exe().expect("current_exe");
+    let mut child = std::process::Command::new(exe)
+        .env("YV_G08_CHILD", "calls")
+        .stdin(std::process::Stdio::piped())
+        .stdout(std::process::Stdio::piped())
+        .spawn()
+        .expect("spawn calls child");
+    let mut stdin = child.stdin.take().unwrap();
+    let input: String = seqs.iter().map(|(c, n)| format!("{}\n", json!({"calls": c, "nrb": n}))).collect();
+    let writer = std::thread::spawn(move || {
+        let _ = stdin.write_all(input.as_bytes());
+    });
+    let mut text = String::new();
+    let _ = child.stdout.take().unwrap().read_to_string(&mut text);
+    let _ = writer.join();
+    let _ = child.wait();
+    let mut res: Vec<Vec<String>> = text.lines().map(|l| serde_json::from_str::<Vec<String>>(l).unwrap_or_default()).collect();
+    res.resize(seqs.len(), vec![]);
+    res
+}
+
+// ---------------------------------------------------------------------------
+// replay: spec -> impl
+// ---------------------------------------------------------------------------
+#[derive(Default)]
+struct Tally {
+    states: usize,
+    cases: usize,
+    exact: usize,
+    to_judge: usize,
+    open_text: usize,
+    unspec: usize,
+    nontrivial: usize,
+    lost: usize,
+    samples: Vec<Value>,
+}
+
+fn step_json(c: &[String], o: &Obs) -> Value {
+    json!({"c": c, "st": o.st, "out": o.out, "err": o.err})
+}
+
+/// Does the observation equal alternative `alt` exactly?  `open`: the
+/// alternative has a text without canonical form ("?").
+fn equals_alt(alt: &Value, entry: &[Vec<String>], obs: &[Obs], nw: usize) -> (bool, bool) {
+    let mut open = false;
+    let exp = alt["o"].as_array().cloned().unwrap_or_default();
+    let rb = strs(&alt["rb"]);
+    for (i, o) in obs.iter().enumerate() {
+        if i < nw {
+            // the witness: successful, silent
+            if o.st != 0 || !o.out.is_empty() || o.err {
+                return (false, false);
+            }
+        } else if i < nw + entry.len() {
+            let e = &exp[i - nw];
+            let (st, text) = (e[0].as_i64().unwrap_or(-1), e[1].as_str().unwrap_or(""));
+            if is_call(&entry[i - nw]) {
+                if o.st != 0 || o.err || o.out != text {
+                    return (false, false);
+                }
+                continue;
+            }
+            if (st == 0) != (o.st == 0) || (o.st != 0) != o.err {
+                return (false, false);
+            }
+            if text == "?" {
+                open = true;
+            } else if o.out != text {
+                return (false, false);
+            }
+        } else {
+            let text = &rb[i - nw - entry.len()];
+            if o.st != 0 || o.err {
+                return (false, false);
+            }
+            if text == "?" {
+                open = true;
+            } else if &o.out != text {
+                return (false, false);
+            }
+        }
+    }
+    (true, open)
+}
+
+fn replay(args: &[String]) {
+    let sys = opt(args, "--sys").unwrap_or("sim").to_string();
+    let plat: Value = serde_json::from_str(&std::fs::read_to_string(opt(args, "--platform").expect("--platform")).expect("platform file")).unwrap();
+    let lines: Vec<String> = open_in(args).lines().map(|l| l.unwrap()).filter(|l| !l.trim().is_empty()).collect();
+    let judge = Mutex::new(opt(args, "--judge").map(|p| std::io::BufWriter::new(std::fs::File::create(p).unwrap())));
+    let tally = Mutex::new(Tally::default());
+    let next = AtomicUsize::new(0);
+    let threads = opt_usize(args, "--threads", if sys == "sim" { 8 } else { 4 });
+    std::thread::scope(|sc| {
+        for _ in 0..threads {
+            sc.spawn(|| {
+                loop {
+                    let i = next.fetch_add(1, Ordering::SeqCst);
+                    if i >= lines.len() {
+                        break;
+                    }
+                    let line: Value = serde_json::from_str(&lines[i]).expect("gen line");
+                    replay_state(&sys, &plat, &line, &judge, &tally);
+                }
+            });
+        }
+    });
+    if let Some(j) = judge.lock().unwrap().as_mut() {
+        j.flush().unwrap();
+    }
+    let t = tally.lock().unwrap();
+    let mut out = open_out(args);
+    writeln!(out, "{}", json!({"sys": sys, "states": t.states, "cases": t.cases, "exact": t.exact, "to_judge": t.to_judge,
+        "open_text": t.open_text, "unspec": t.unspec, "nontrivial": t.nontrivial, "lost": t.lost, "samples": t.samples}))
+    .unwrap();
+}
+
+fn replay_state(sys: &str, plat: &Value, line: &Value, judge: &Mutex<Option<std::io::BufWriter<std::fs::File>>>, tally: &Mutex<Tally>) {
+    let fam = line["fam"].as_str().unwrap_or("");
+    let w = cmds_of(&line["w"]);
+    let rb = cmds_of(&line["rb"]);
+    let fan = line["fan"].as_array().cloned().unwrap_or_default();
+    let mut entries: Vec<(usize, Vec<Vec<String>>)> = vec![];
+    let mut unspec = 0;
+    for (k, e) in fan.iter().enumerate() {
+        if e["u"].as_bool().unwrap_or(false) {
+            unspec += 1;
+            continue;
+        }
+        entries.push((k, cmds_of(&e["c"])));
+    }
+    let seqs: Vec<Vec<Vec<String>>> = entries.iter().map(|(_, c)| w.iter().cloned().chain(c.iter().cloned()).chain(rb.iter().cloned()).collect()).collect();
+    // observations per sequence
+    let observed: Vec<Option<Vec<Obs>>> = if fam == "calls" {
+        let texts: Vec<Vec<String>> = if sys == "sim" {
+            seqs.iter().map(|s| sim_calls(plat, s, rb.len())).collect()
+        } else {
+            real_calls(&seqs.iter().map(|s| (s.clone(), rb.len())).collect::<Vec<_>>())
+        };
+        texts
+            .into_iter()
+            .zip(&seqs)
+            .map(|(t, s)| if t.len() == s.len() { Some(t.into_iter().map(|x| Obs { st: 0, out: x, err: false }).collect()) } else { None })
+            .collect()
+    } else {
+        run_sequences(sys, plat, &seqs).0
+    };
+    let mut t = Tally::default();
+    t.states = 1;
+    t.unspec = unspec;
+    let mut records = vec![];
+    for (((k, entry), seq), obs) in entries.iter().zip(&seqs).zip(&observed) {
+        t.cases += 1;
+        let alts = fan[*k]["alts"].as_array().cloned().unwrap_or_default();
+        let Some(obs) = obs else {
+            t.lost += 1;
+            t.to_judge += 1;
+            records.push(json!({"sys": sys, "layer": if fam == "calls" { "call" } else { "sh" }, "from": "fan", "miss": true,
+                                "steps": seq.iter().map(|c| json!({"c": c, "st": -1, "out": "", "err": false})).collect::<Vec<_>>()}));
+            continue;
+        };
+        let mut exact = false;
+        let mut open = false;
+        for a in &alts {
+            let (eq, op) = equals_alt(a, entry, obs, w.len());
+            if eq && !op {
+                exact = true;
+            }
+            if eq && op {
+                open = true;
+            }
+        }
+        if exact {
+            t.exact += 1;
+            let changed = alts.iter().any(|a| a["o"].as_array().is_some_and(|o| o.iter().all(|x| x[0] == 0)))
+                && obs[w.len()..w.len() + entry.len()].iter().all(|o| o.out.is_empty())
+                && !is_call(&entry[0]);
+            if changed {
+                t.nontrivial += 1;
+            }
+            if t.samples.len() < 2 && (t.cases % 37 == 5) {
+                t.samples.push(json!({"sys": sys, "witness": w, "entry": entry,
+                                      "observed": obs[w.len()..].iter().map(|o| json!([o.st, o.out])).collect::<Vec<_>>()}));
+            }
+        } else {
+            if open {
+                t.open_text += 1;
+            }
+            t.to_judge += 1;
+            records.push(json!({"sys": sys, "layer": if fam == "calls" { "call" } else { "sh" }, "from": "fan", "miss": false,
+                                "steps": seq.iter().zip(obs).map(|(c, o)| step_json(c, o)).collect::<Vec<_>>()}));
+        }
+    }
+    if let Some(j) = judge.lock().unwrap().as_mut() {
+        for r in &records {
+            writeln!(j, "{r}").unwrap();
+        }
+    }
+    let mut g = tally.lock().unwrap();
+    g.states += t.states;
+    g.cases += t.cases;
+    g.exact += t.exact;
+    g.to_judge += t.to_judge;
+    g.open_text += t.open_text;
+    g.unspec += t.unspec;
+    g.nontrivial += t.nontrivial;
+    g.lost += t.lost;
+    if g.samples.len() < 6 {
+        g.samples.extend(t.samples);
+    }
+}
+
+// ---------------------------------------------------------------------------
+// random: impl -> spec
+// ---------------------------------------------------------------------------
+fn pick<'a>(rng: &mut StdRng, xs: &[&'a str]) -> &'a str {
+    xs[rng.gen_range(0..xs.len())]
+}
+
+/// Generous values for the limits that take effect on the test process itself
+/// on the real system (generator knowledge only; the oracle has none of this).
+fn safe_values(sys: &str, l: &str) -> Vec<String> {
+    let floor: Option<u64> = if sys != "real" {
+        None
+    } else {
+        match l {
+            "f" => Some(2_097_152),
+            "n" => Some(256),
+            "t" | "u" => Some(100_000),
+            "d" | "v" => Some(16_777_216),
+            "s" => Some(8192),
+            _ => None,
+        }
+    };
+    match floor {
+        Some(f) => vec![f.to_string(), (f * 2).to_string(), (f + 1).to_string(), (f * 3).to_string()],
+        None => ["0", "1", "2", "7", "8", "63", "512", "1000", "1023", "1024", "4096", "65536", "1000000"].iter().map(|s| s.to_string()).collect(),
+    }
+}
+
+fn random_mode(rng: &mut StdRng) -> String {
+    let mut clauses = vec![];
+    for _ in 0..rng.gen_range(1..=3) {
+        let mut c = String::new();
+        for _ in 0..rng.gen_range(0..=2) {
+            c.push_str(pick(rng, &["u", "g", "o", "a", "u", "g", "o"]));
+        }
+        for _ in 0..rng.gen_range(1..=3) {
+            c.push_str(pick(rng, &["+", "-", "="]));
+            match rng.gen_range(0..20) {
+                0..=12 => {
+                    for _ in 0..rng.gen_range(0..=3) {
+                        c.push_str(pick(rng, &["r", "w", "x", "X", "r", "w", "x", "s"]));
+                    }
+                }
+                13..=18 => c.push_str(pick(rng, &["u", "g", "o"])),
+                _ => c.push_str(pick(rng, &["t", "z", "ug", "ru", "7"])),
+            }
+        }
+        clauses.push(c);
+    }
+    let mut m = clauses.join(",");
+    if rng.gen_range(0..25) == 0 {
+        let p = rng.gen_range(0..=m.len());
+        m.insert_str(p, pick(rng, &[",", "=", "u", "Z", "8", " ", "+"]));
+    }
+    m
+}
+
+fn random_sh_cmd(rng: &mut StdRng, sys: &str, sup: &[String]) -> Vec<String> {
+    let v = |xs: &[&str]| xs.iter().map(|s| s.to_string()).collect::<Vec<_>>();
+    match rng.gen_range(0..100) {
+        0..=34 => {
+            let m = if rng.gen_range(0..6) == 0 {
+                let d = rng.gen_range(1..=4);
+                (0..d).map(|_| pick(rng, &["0", "1", "2", "3", "4", "5", "6", "7", "7", "0", "2", "8"])).collect::<String>()
+            } else {
+                random_mode(rng)
+            };
+            let mut c = v(&["umask"]);
+            if rng.gen_range(0..8) == 0 {
+                c.push(pick(rng, &["-S", "--symbolic"]).to_string());
+            }
+            if m.starts_with('-') || rng.gen_range(0..10) == 0 {
+                c.push("--".into());
+            }
+            c.push(m);
+            c
+        }
+        35..=49 => match rng.gen_range(0..6) {
+            0 | 1 => v(&["umask"]),
+            2 | 3 => v(&["umask", "-S"]),
+            4 => v(&["umask", "--symbolic"]),
+            _ => v(&["umask", "-S", "-S"]),
+        },
+        50..=89 => {
+            let mut c = v(&["ulimit"]);
+            let l = if rng.gen_range(0..6) == 0 { LETTERS[rng.gen_range(0..LETTERS.len())].to_string() } else { sup[rng.gen_range(0..sup.len())].clone() };
+            let with_res = rng.gen_range(0..8) != 0;
+            let res_l = if with_res { l.clone() } else { "f".to_string() };
+            let mut parts: Vec<String> = vec![];
+            match rng.gen_range(0..10) {
+                0..=3 => {}
+                4..=5 => parts.push("-S".into()),
+                6..=7 => parts.push("-H".into()),
+                8 => parts.extend(v(&["-H", "-S"])),
+                _ => parts.push(pick(rng, &["--soft", "--hard", "-SH", "-HH"]).to_string()),
+            }
+            if with_res {
+                let p = rng.gen_range(0..=parts.len());
+                parts.insert(p, format!("-{l}"));
+            }
+            if rng.gen_range(0..15) == 0 {
+                // grouped
+                let joined: String = parts.iter().filter(|p| !p.starts_with("--")).map(|p| p[1..].to_string()).collect();
+                let longs: Vec<String> = parts.iter().filter(|p| p.starts_with("--")).cloned().collect();
+                parts = longs;
+                if !joined.is_empty() {
+                    parts.push(format!("-{joined}"));
+                }
+            }
+            if rng.gen_range(0..25) == 0 {
+                parts.push("-a".into());
+            }
+            c.extend(parts);
+            match rng.gen_range(0..20) {
+                0..=5 => {}
+                6..=13 => {
+                    let vals = safe_values(sys, &res_l);
+                    c.push(vals[rng.gen_range(0..vals.len())].clone());
+                }
+                14 => c.push("unlimited".into()),
+                15 => c.push("hard".into()),
+                16 => c.push("soft".into()),
+                17 => c.push(pick(rng, &["18014398509481983", "18014398509481984", "36028797018963967", "36028797018963968",
+                                         "18446744073709551614", "18446744073709551616", "99999999999999999999999"]).to_string()),
+                18 => c.push(pick(rng, &["x", "1.5", "", "0x10", "1e3", "Hard"]).to_string()),
+                _ => c.extend(v(&["1", "2"])),
+            }
+            c
+        }
+        90..=93 => v(&["ulimit", pick(rng, &["-a", "-Ha", "-Sa"])]),
+        94..=96 => v(&["times"]),
+        97..=98 => v(&["set", "-o", "portable"]),
+        _ => v(&["set", "+o", "portable"]),
+    }
+}
+
+fn random_call(rng: &mut StdRng, sys: &str) -> Vec<String> {
+    let l = pick(rng, &["n", "c", "f", "c", "n", "f", "t", "d", "k", "l"]).to_string();
+    let raw = |rng: &mut StdRng| -> String {
+        // in forked children of the calls child even small values are harmless
+        let _ = sys;
+        pick(rng, &["0", "1", "5", "511", "512", "777", "1024", "4096", "100000", "inf", "inf", "18446744073709551614"]).to_string()
+    };
+    match rng.gen_range(0..10) {
+        0..=2 => vec!["getrlimit".into(), l],
+        3..=8 => {
+            let (a, b) = (raw(rng), raw(rng));
+            vec!["setrlimit".into(), l, a, b]
+        }
+        _ => vec!["sys_umask".into(), format!("{:03o}", rng.gen_range(0..512))],
+    }
+}
+
+fn random(args: &[String]) {
+    let sys = opt(args, "--sys").unwrap_or("sim").to_string();
+    let plat: Value = serde_json::from_str(&std::fs::read_to_string(opt(args, "--platform").expect("--platform")).expect("platform file")).unwrap();
+    let runs = opt_usize(args, "--runs", 200);
+    let len = opt_usize(args, "--len", 12);
+    let sup = strs(&plat["sup"]);
+    let mut rng = StdRng::seed_from_u64(yvcommon::util::seed() ^ 0x9a08 ^ if sys == "sim" { 0 } else { 0x55 });
+    let mut out = open_out(args);
+    let mut steps = 0;
+    let mut sh: Vec<Vec<Vec<String>>> = vec![];
+    let mut calls: Vec<(Vec<Vec<String>>, usize)> = vec![];
+    for i in 0..runs {
+        if i % 4 == 3 {
+            let n = rng.gen_range(len / 2..=len);
+            calls.push(((0..n).map(|_| random_call(&mut rng, &sys)).collect(), 0));
+        } else {
+            let n = rng.gen_range(len / 2..=len);
+            sh.push((0..n).map(|_| random_sh_cmd(&mut rng, &sys, &sup)).collect());
+        }
+    }
+    // shell layer: 25 sequences per shell process, each in a subshell
+    for chunk in sh.chunks(25) {
+        let (obs, _) = run_sequences(&sys, &plat, chunk);
+        for (seq, o) in chunk.iter().zip(obs) {
+            steps += seq.len();
+            let rec = match o {
+                Some(o) => json!({"sys": sys, "layer": "sh", "from": "random", "miss": false,
+                                  "steps": seq.iter().zip(&o).map(|(c, o)| step_json(c, o)).collect::<Vec<_>>()}),
+                None => json!({"sys": sys, "layer": "sh", "from": "random", "miss": true,
+                               "steps": seq.iter().map(|c| json!({"c": c, "st": -1, "out": "", "err": false})).collect::<Vec<_>>()}),
+            };
+            writeln!(out, "{rec}").unwrap();
+        }
+    }
+    // call layer
+    let texts: Vec<Vec<String>> = if sys == "sim" { calls.iter().map(|(c, _)| sim_calls(&plat, c, 0)).collect() } else { real_calls(&calls) };
+    for ((seq, _), t) in calls.iter().zip(texts) {
+        steps += seq.len();
+        let miss = t.len() != seq.len();
+        let rec = json!({"sys": sys, "layer": "call", "from": "random", "miss": miss,
+                         "steps": seq.iter().enumerate().map(|(i, c)| json!({"c": c, "st": 0, "out": t.get(i).cloned().unwrap_or_default(), "err": false})).collect::<Vec<_>>()});
+        writeln!(out, "{rec}").unwrap();
+    }
+    out.flush().unwrap();
+    println!("{}", json!({"sys": sys, "runs": runs, "sh_sequences": sh.len(), "call_sequences": calls.len(), "steps": steps}));
+}
+
+// ---------------------------------------------------------------------------
+// redo: run recorded sequences again
+// ---------------------------------------------------------------------------
+fn redo(args: &[String]) {
+    let plat: Value = serde_json::from_str(&std::fs::read_to_string(opt(args, "--platform").expect("--platform")).expect("platform file")).unwrap();
+    let sys = plat["sys"].as_str().unwrap_or("sim").to_string();
+    let mut out = open_out(args);
+    for line in open_in(args).lines() {
+        let line = line.unwrap();
+        if line.trim().is_empty() {
+            continue;
+        }
+        let rec: Value = serde_json::from_str(&line).expect("record");
+        let seq: Vec<Vec<String>> = rec["steps"].as_array().map(|a| a.iter().map(|s| strs(&s["c"])).collect()).unwrap_or_default();
+        let layer = rec["layer"].as_str().unwrap_or("sh");
+        let new = if layer == "call" {
+            let t = if sys == "sim" { sim_calls(&plat, &seq, 0) } else { real_calls(&[(seq.clone(), 0)]).remove(0) };
+            json!({"sys": sys, "layer": "call", "from": "redo", "miss": t.len() != seq.len(),
+                   "steps": seq.iter().enumerate().map(|(i, c)| json!({"c": c, "st": 0, "out": t.get(i).cloned().unwrap_or_default(), "err": false})).collect::<Vec<_>>()})
+        } else {
+            match run_sequences(&sys, &plat, &[seq.clone()]).0.remove(0) {
+                Some(o) => json!({"sys": sys, "layer": "sh", "from": "redo", "miss": false,
+                                  "steps": seq.iter().zip(&o).map(|(c, o)| step_json(c, o)).collect::<Vec<_>>()}),
+                None => json!({"sys": sys, "layer": "sh", "from": "redo", "miss": true,
+                               "steps": seq.iter().map(|c| json!({"c": c, "st": -1, "out": "", "err": false})).collect::<Vec<_>>()}),
+            }
+        };
+        writeln!(out, "{new}").unwrap();
+    }
+    out.flush().unwrap();
+}
+
 fn main() {
-    eprintln!("yv-g08: not implemented yet");
-    std::process::exit(2);
+    match std::env::var("YV_G08_CHILD").as_deref() {
+        Ok("shell") => real_shell_child(),
+        Ok("calls") => real_calls_child(),
+        _ => {}
+    }
+    yvcommon::real::maybe_child_main();
+    if std::env::var("YV_LOUD").is_err() {
+        yvcommon::util::quiet_panics();
+    }
+    let args: Vec<String> = std::env::args().skip(1).collect();
+    match args.first().map(|s| s.as_str()) {
+        Some("platform") => {
+            let sys = opt(&args, "--sys").unwrap_or("sim");
+            println!("{}", platform(sys, yvcommon::util::seed()));
+        }
+        Some("replay") => replay(&args),
+        Some("random") => random(&args),
+        Some("redo") => redo(&args),
+        _ => {
+            eprintln!("usage: yv-g08 platform|replay|random|redo ...");
+            std::process::exit(2);
+        }
+    }
 }
